@@ -5,8 +5,11 @@
             | n<v>                       ref v
             | l<res>[b<r>]               lazy: <res> ::= v<k> | x | f<j> ; b<r>: bump reference r first
             | t=<bop>,<bop>,...          spawn (body may be empty: "t=")
-            | u<t>                       resume t
    <bop>  ::= s<c>.<v> | r<c> | g<r> | p<r>.<v> | f<l> | y
+            | u<t>                       resume the coroutine labelled t
+            | t[<bop>,<bop>,...]         (inside a body) spawn a coroutine of its own
+   Coroutine labels are the positions of the spawns in the text (pre-order: 0, 1, 2, ...);
+   the driver assigns them while parsing, exactly as the harness does.
    Reply: the log of the Gluon program the harness generates for the same sequence —
    tokens `<tid>:<obs>` separated by blanks — or `HANG` when the main thread never returns,
    `BAD` for an ill-scoped sequence, `FUEL` if the model ran out of fuel (never: proved).
@@ -18,7 +21,22 @@ let rec int_of_nat = function O -> 0 | S n -> 1 + int_of_nat n
 
 let num s = nat_of_int (int_of_string s)
 
-let parse_bop s =
+let next_label = ref 0
+
+(* split on commas that are not inside brackets *)
+let split_top s =
+  if s = "" then [] else begin
+    let parts = ref [] and depth = ref 0 and start = ref 0 in
+    String.iteri (fun i c ->
+      if c = '[' then incr depth
+      else if c = ']' then decr depth
+      else if c = ',' && !depth = 0 then begin
+        parts := String.sub s !start (i - !start) :: !parts; start := i + 1 end) s;
+    parts := String.sub s !start (String.length s - !start) :: !parts;
+    List.rev !parts
+  end
+
+let rec parse_bop s =
   let rest = String.sub s 1 (String.length s - 1) in
   let two () = match String.split_on_char '.' rest with
     | [a; b] -> (num a, num b) | _ -> failwith ("bad operand " ^ s) in
@@ -29,7 +47,20 @@ let parse_bop s =
   | 'p' -> let (r, v) = two () in BStore (r, v)
   | 'f' -> BForce (num rest)
   | 'y' -> BYield
+  | 'u' -> BResume (num rest)
+  | 't' ->
+      (* t=body (top level) or t[body] (nested) *)
+      let inner =
+        if rest <> "" && rest.[0] = '=' then String.sub rest 1 (String.length rest - 1)
+        else if String.length rest >= 2 && rest.[0] = '[' && rest.[String.length rest - 1] = ']'
+        then String.sub rest 1 (String.length rest - 2)
+        else failwith ("bad spawn " ^ s) in
+      let lab = !next_label in
+      incr next_label;
+      let body = parse_body inner in
+      BSpawn (nat_of_int lab, body)
   | _ -> failwith ("bad bop " ^ s)
+and parse_body inner = List.map parse_bop (split_top inner)
 
 let parse_lbody s =
   (* s = <res>[b<r>] *)
@@ -49,10 +80,6 @@ let parse_op s =
   match s.[0] with
   | 'n' -> ORef (num (rest ()))
   | 'l' -> OLazy (parse_lbody (rest ()))
-  | 't' ->
-      let b = String.sub s 2 (String.length s - 2) in
-      OSpawn (if b = "" then [] else List.map parse_bop (String.split_on_char ',' b))
-  | 'u' -> OResume (num (rest ()))
   | _ -> OB (parse_bop s)
 
 exception Whole of string
@@ -74,9 +101,10 @@ let token = function
   | EForce (true, _, _, FHang) -> None      (* the force never returns: nothing is logged *)
   | EForce (false, _, _, _) -> None
   | EYield t -> Some (Printf.sprintf "%d:y" (int_of_nat t))
-  | ESpawn _ -> Some "0:n"
-  | EResume (_, ROk) -> Some "0:R"
-  | EResume (_, RDead) -> Some "0:D"
+  | ESpawn (t, _) -> Some (Printf.sprintf "%d:n" (int_of_nat t))
+  | EResume (t, _, ROk) -> Some (Printf.sprintf "%d:R" (int_of_nat t))
+  | EResume (t, _, RDead) -> Some (Printf.sprintf "%d:D" (int_of_nat t))
+  | EFuel -> raise (Whole "FUEL")
   | EBad -> raise (Whole "BAD")
 
 let () =
@@ -88,6 +116,7 @@ let () =
         | [] -> print_endline ""
         | m :: ops ->
             let mode = match m with "faithful" -> Faithful | "fixed" -> Fixed | _ -> failwith ("bad mode " ^ m) in
+            next_label := 0;
             let (tr, hung) = observe mode (List.map parse_op ops) in
             let out =
               try
